@@ -347,5 +347,10 @@ PROPS["C19"]["explanation"] += " (RECMAJOR) hdp reads Vdata records in FULL_INTE
 PROPS["C15"]["rules"] = PROPS["C15"]["rules"] + [rules_idioms.rule_status_as_boolean]
 PROPS["C15"]["explanation"] += " (STATUSBOOL) a local that only takes the values SUCCEED (0) and FAIL (-1) is never tested as a truth value (which would be true for FAIL): one known finding, the `new_dim` flag with which hdf_read_ndgs decides whether a dimension of a pre-Vgroup SDS gets the coordinate variable that carries its label/unit/format."
 
+PROPS["C15"]["rules"] = PROPS["C15"]["rules"] + [rules_sd.rule_unlimited_size_per_variable]
+PROPS["C15"]["explanation"] += " (UNLIMSIZE) wherever a variable's unlimited extent is replaced by its current size, HDF files use the variable's own record count; this includes the NDG dimension record hdf_write_var stores for DFSD readers."
+PROPS["C03"]["rules"] = PROPS["C03"]["rules"] + [rules_sd.rule_unlimited_size_per_variable]
+PROPS["C03"]["explanation"] += " (UNLIMSIZE) the stride validation of SDreaddata and the dimensions SDgetinfo reports take the size of an unlimited dimension from the variable's own record count in HDF files."
+
 NOT_APPLICABLE = {}
 
